@@ -27,6 +27,7 @@ import (
 	"github.com/emersion/go-smtp"
 	"github.com/foxcpp/maddy/framework/config"
 	"github.com/foxcpp/maddy/framework/module"
+	"github.com/foxcpp/maddy/internal/authz"
 	"github.com/foxcpp/maddy/internal/check/authorize_sender"
 	"github.com/foxcpp/maddy/internal/testutils"
 	"github.com/foxcpp/maddy/internal/verifshim/vc15"
@@ -35,10 +36,36 @@ import (
 
 // c15Switch lets one endpoint serve many cases: it hands each message to the check of the
 // current case.
-type c15Switch struct{ cur module.Check }
+type c15Switch struct {
+	cur module.Check
+	// the identity the endpoint gave the last message's connection (what authorize_sender sees)
+	sawMsg   bool
+	authUser string
+}
 
 func (s *c15Switch) CheckStateForMsg(ctx context.Context, m *module.MsgMetadata) (module.CheckState, error) {
+	s.sawMsg = true
+	s.authUser = ""
+	if m.Conn != nil {
+		s.authUser = m.Conn.AuthUser
+	}
 	return s.cur.CheckStateForMsg(ctx, m)
+}
+
+// c15Auth is the credential store of the endpoint: every account name has its own password
+// (vc15.Password); the catch-all "password" serves the sessions that are not about identities.  It
+// records for which account a password was verified last.
+type c15Auth struct {
+	verified     bool
+	verifiedName string
+}
+
+func (a *c15Auth) AuthPlain(username, password string) error {
+	if password == "password" || password == vc15.Password(username) {
+		a.verified, a.verifiedName = true, username
+		return nil
+	}
+	return fmt.Errorf("c15: invalid credentials")
 }
 
 func c15BuildCheck(cs *vc15.Case) (module.Check, error) {
@@ -65,8 +92,21 @@ func c15FreePort(t *testing.T) string {
 	return strconv.Itoa(l.Addr().(*net.TCPAddr).Port)
 }
 
-func c15Session(t *testing.T, out *vh.Out, tgt *testutils.Target, sw *c15Switch, cs *vc15.Case) {
+func c15Session(t *testing.T, out *vh.Out, endp *Endpoint, store *c15Auth, tgt *testutils.Target, sw *c15Switch, cs *vc15.Case) {
 	op := vc15.SessionOpLine(cs)
+	// the identity family: the endpoint normalises login names with the setting of the case
+	// (auth_map_normalize), like the check does (auth_normalize); the client knows ONE password: that
+	// of the account it logs in as
+	endp.saslAuth.AuthNormalize = nil
+	authzid, password := "", "password"
+	loginNorm, loginNormOK := "", false
+	if cs.HasZ {
+		endp.saslAuth.AuthNormalize = authz.NormalizeFuncs[cs.AuthNorm]
+		loginNorm, loginNormOK = vc15.NormBoth(cs.AuthNorm, cs.User)
+		authzid, password = cs.Authzid, vc15.Password(loginNorm)
+	}
+	store.verified, store.verifiedName = false, ""
+	sw.sawMsg, sw.authUser = false, ""
 	chk, err := c15BuildCheck(cs)
 	if err != nil {
 		out.Violation("C15/session-config-rejected", op, err.Error())
@@ -85,7 +125,7 @@ func c15Session(t *testing.T, out *vh.Out, tgt *testutils.Target, sw *c15Switch,
 		_ = cl.Hello("mx.example.org")
 		if cs.User != "" {
 			stage = "auth"
-			if err := cl.Auth(sasl.NewPlainClient("", cs.User, "password")); err != nil {
+			if err := cl.Auth(sasl.NewPlainClient(authzid, cs.User, password)); err != nil {
 				return
 			}
 		}
@@ -111,6 +151,28 @@ func c15Session(t *testing.T, out *vh.Out, tgt *testutils.Target, sw *c15Switch,
 		cl.Quit()
 	}()
 	delivered := len(tgt.Messages) > before
+	if cs.HasZ {
+		// (T2) the AUTH PLAIN exchange against the model: refused, or accepted with which identity
+		obs := "auth-failed"
+		if stage != "auth" && stage != "dial" {
+			obs = "auth-ok " + vh.HexRunes(sw.authUser)
+		}
+		out.Corr(fmt.Sprintf("C15 sasl %s %s %s %s %s", vc15.B01(loginNormOK), vh.HexRunes(loginNorm), vh.HexRunes(cs.Authzid),
+			vh.HexRunes(cs.User), vh.HexRunes(loginNorm)), obs)
+		out.Stat("session.authzid." + cs.ZForm + "." + strings.Fields(obs)[0])
+		out.Stat("session.authzid.setting." + cs.AuthNorm)
+		// (T3) the identity authorize_sender is shown must be the account whose password was verified
+		if sw.sawMsg {
+			if !store.verified {
+				out.Violation("C15/session-identity-not-the-authenticated-one", op, fmt.Sprintf("the check saw the user %q, no password was verified", sw.authUser))
+			} else if n, ok := vc15.NormBoth(cs.AuthNorm, sw.authUser); !ok || n != store.verifiedName {
+				out.Violation("C15/session-identity-not-the-authenticated-one", op, fmt.Sprintf(
+					"password verified for the account %q (login %q, authorization identity %q), the check saw the user %q = account %q under %s",
+					store.verifiedName, cs.User, cs.Authzid, sw.authUser, n, cs.AuthNorm))
+			}
+			out.Stat("session.authzid.identity-judged")
+		}
+	}
 	if (stage == "done") != delivered {
 		out.Violation("C15/session-reply-disagrees-with-delivery", op, fmt.Sprintf("client stage %s, delivered %v", stage, delivered))
 	}
@@ -240,6 +302,12 @@ func TestVerifC15Session(t *testing.T) {
 			}
 			cases = append(cases, cs)
 		}
+		// the identity family: AUTH PLAIN with every kind of authorization identity
+		cases = append(cases, vc15.FixedAuthz()...)
+		rz := vh.NewRng(vh.Seed() + 151516)
+		for i, nz := 0, n/6; i < nz; i++ {
+			cases = append(cases, vc15.GenAuthzCase(rz.Fork()))
+		}
 	}
 
 	oldPort := testPort
@@ -260,9 +328,10 @@ func TestVerifC15Session(t *testing.T) {
 		}
 		tgt := testutils.Target{}
 		sw := &c15Switch{}
-		endp := testEndpoint(t, kind, &module.Dummy{}, &tgt, []module.Check{sw}, nil)
+		store := &c15Auth{}
+		endp := testEndpoint(t, kind, store, &tgt, []module.Check{sw}, nil)
 		for _, cs := range mine {
-			c15Session(t, out, &tgt, sw, cs)
+			c15Session(t, out, endp, store, &tgt, sw, cs)
 			out.Stat("session.endpoint." + kind)
 		}
 		endp.Close()
